@@ -12,7 +12,7 @@ CHECKS = {
    "hash pre-images are not enumerable: 'random bytes' is covered structurally; ref/ed validated against RFC 8032 vectors, crypto/ed25519 and filippo decoding"),
  "C03": ("exploration", "E1+E2", E1 + "; word-list selection: explicit-state search over all operation sequences of length <=4",
    "both word lists read index by index through the API and compared with the SHA-256 of the official files; every entropy length 0..70; per allowed length every position x all 256 byte values and all position pairs x {00,01,7F,80,FF}^2 on all-00/all-FF (leading-zero runs of every length); decode direction on word indices: every position x all 2048 words, position pairs x a 12-word alphabet, counts 0..51, out-of-list and other-list words, error classes; 1555 selection histories against a one-variable model",
-   "bounded deviation depth 2 from structured bases; quick tier uses lengths {16,20,32,64}, thorough all 13"),
+   "bounded deviation depth 2 from structured bases; the position-pair enumeration of the quick tier uses lengths {16,20,32,64}, thorough all 13"),
  "C06": ("model_checking", "E2", "explicit-state breadth-first search over operation histories of the real object (fresh instance + replay), de-duplicated on a hash of all live instances' states, every step compared with a reference model of 64 independent one-lane sponges; repeated in the purego build",
    "all histories of depth <=4 (thorough 5) over 34 operations (Absorb/Squeeze with batch {1,2,63,64} x {0,1,2} blocks, Clone, Reset, 8 rejected calls): after every step every lane of every live instance (incl. instances left behind by Clone) equals its independent Curl-P-81 sponge, rejected calls leave the state untouched, absorb-after-squeeze is refused without effect; one-hot family for every lane; the same search in the purego build must give identical outputs",
    "depth bound; 4 block patterns per lane position; reference = one-lane Curl-P-81 validated against testdata and iota.go"),
@@ -74,26 +74,27 @@ SHARED = ("; shared passes: all call histories of length <=3 over the property's
           "(arguments in re-used arena buffers, results overwritten, kept results re-read, arguments compared afterwards) against the reference, plus a salted pass with fresh identities; "
           "every ordered pair of operations run concurrently under the race detector (exhaustive over pairs, sampling over schedules), also as the first use of the package in a fresh process (cold start); "
           "every exported method of the API's types called through reflection as one more history operation; capacity pass (the same call with 1..260 other identities in between, then the first again)")
-ARCH386_QUICK = {"C04", "C05", "C10", "C11", "C12", "C14", "C15", "C16", "C19"}
-ARCH386_THOROUGH = {"C01", "C02", "C03", "C07", "C08", "C09", "C17", "C18"}
+ARCH386_QUICK = {"C01", "C02", "C03", "C04", "C05", "C07", "C08", "C09", "C10", "C11", "C12", "C14", "C15", "C16", "C17", "C18", "C19"}
+ARCH386_THOROUGH = set()
 EXTRA = {
- "C18": "; encodings that look like p in the bytes a byte-wise comparison examines, as Gamma and as key; proof objects decoded from re-used buffers and kept; the first call of the process repeated after everything else",
+ "C03": "; every allowed entropy length in both tiers (bases and every position x all byte values); caller-supplied word lists as an explicit-state search (see C09)",
+ "C18": "; encodings that look like p in the bytes a byte-wise comparison examines, as Gamma and as key; proof objects decoded from re-used buffers and kept; the first call of the process repeated after everything else; public keys of other lengths than 32 bytes (too short; a valid key followed by junk with the proof its holder computes over the whole string) are never accepted; zero-value Proof and key objects as receivers of every method in the method sweep",
  "C01": "; R related to A (R = A, -A, 2A, 8A) with the S of either sign; the first call of the process repeated after everything else",
- "C02": "; extended keys restored by the caller from stored k||c material in three memory layouts, every alphabet index, stored bytes compared afterwards; children whose intermediate I_L starts with 00 or FF (found by scanning 8192 indices per parent with an own HMAC), derived privately and from the extended public key",
- "C04": "; every code point of the BMP (quick: every third above U+0800) and every other single byte inside the prefix with the checksum that is right for the raw bytes; strings whose checksum is right for another final constant (Bech32m, 0, all ones, every single bit); valid strings with 0..3 data symbols through address.ParseBech32",
+ "C02": "; extended keys restored by the caller from stored k||c material in three memory layouts, every alphabet index, stored bytes compared afterwards; children whose intermediate I_L starts with 00 or FF (found by scanning 8192 indices per parent with an own HMAC), derived privately and from the extended public key; kept objects: all operation sequences of length <=3 (thorough 4) on ONE master key and ONE extended public key object (private, public, re-neutered, hardened-from-public derivations), result and both kept objects compared with the reference after every step; seeds passed as windows of larger buffers (spare capacity) in the scripted and toy-curve parts, buffer compared afterwards",
+ "C04": "; every code point of the BMP (quick: every third above U+0800) and every other single byte inside the prefix with the checksum that is right for the raw bytes; strings whose checksum is right for another final constant (Bech32m, 0, all ones, every single bit); valid strings with 0..3 data symbols through address.ParseBech32; a valid string of every total length up to 90 (prefix lengths 1, 2, 40, 83) with 1..6 further characters behind it or in front of it, judged by the reference",
  "C05": "; every code point of the BMP (quick: every third above U+0800) as prefix character; last six data symbols / prefix characters solved for so that the running checksum is 0, 1, 2, all ones, a single bit or the Bech32m constant after the data / after the expanded prefix; an invalid character at every data index followed by Encode of every length on one OS thread",
  "C08": "; the same pairs and derivations on keys assembled from the exported fields with every exported curve object denoting the curve; indices whose I_L starts with 00 or FF",
- "C11": "; a consumer that links only pkg/pow and the standard library; nine kinds of ending context x unattainable/easy target x 1 and 4 workers; nonce-encoding sweep following every worker for 1031 (thorough 262201) batches; Worker reuse sequences; worker counts none..1000; data sizes at and around multiples of 64 KiB and 1 MiB up to 16 MiB; Workers created while pow.Hash was another function",
- "C12": "; a consumer that links only pkg/pow/v2 and the standard library; nine kinds of ending context x unattainable/easy target x 1 and 4 workers; nonce-encoding sweep; Worker reuse sequences; worker counts none..1000; data sizes at and around multiples of 1 MiB up to 16 MiB; the same data on the same Worker after a timed-out call with a higher target (pass-over oracle); message lengths that divide 2^64-1",
- "C13": "; cold starts (first use of the package = an N-worker Mine in a fresh process under the race detector); low-target scenarios (every nonce qualifies) and contexts with a far deadline cancelled by their CancelFunc, under the scheduler and in the free-running pass; two calls on one Worker; length x target exactly 2^64-1 cancelled; another Worker mining with twice GOMAXPROCS goroutines while this call is cancelled",
+ "C11": "; a consumer that links only pkg/pow and the standard library; nine kinds of ending context x unattainable/easy target x 1 and 4 workers; nonce-encoding sweep following every worker for 1031 (thorough 262201) batches; Worker reuse sequences; worker counts none..1000; data sizes at and around multiples of 64 KiB and 1 MiB up to 16 MiB; Workers created while pow.Hash was another function; messages rebuilt in the SAME buffer (same backing array and length, other content) on one Worker and on a new Worker per call",
+ "C12": "; a consumer that links only pkg/pow/v2 and the standard library; nine kinds of ending context x unattainable/easy target x 1 and 4 workers; nonce-encoding sweep; Worker reuse sequences; worker counts none..1000; data sizes at and around multiples of 1 MiB up to 16 MiB; the same data on the same Worker after a timed-out call with a higher target (pass-over oracle); message lengths that divide 2^64-1; messages rebuilt in the SAME buffer (same backing array and length, other content) on one Worker and on a new Worker per call",
+ "C13": "; cold starts (first use of the package = an N-worker Mine in a fresh process under the race detector); low-target scenarios (every nonce qualifies) and contexts with a far deadline cancelled by their CancelFunc, under the scheduler and in the free-running pass; two calls on one Worker; length x target exactly 2^64-1 cancelled; another Worker mining with twice GOMAXPROCS goroutines while this call is cancelled; the free-running scenarios once more in the GOARCH=386 build (alignment of 64-bit atomics, 32-bit counters), incl. cold starts",
  "C14": "; roomy and exactly sized buffers (slack 0..64, source with and without bytes behind its length); the earliest fault decides the error class and the count; two invalid groups of every kind pairing at every pair of 40 positions, as trytes and as trits",
  "C16": "; the real polymod against the BIP-173 transcription on every single-symbol sequence of length <=100; all 2^25 (thorough 2^30) checksum tails through the real Decode for extra accepted constants",
- "C17": "; scalar 1 / n+1 and additions with the identity in the history pass (results overwritten by the caller, arguments and generator compared afterwards); the endomorphism images lambda*P (same y, other x) for both roots of lambda^2+lambda+1 and the scalars lambda-1, lambda+1, lambda+2",
- "C06": "; a behavioural probe (one squeezed block of all lanes on a clone) of the current instance after every history, so that state the state key does not see is not merged away; word-size generic permutation/sponge comparison in the GOARCH=386 and GOAMD64=v3 builds; re-entrancy pass also in the purego race build; ONE Absorb call with every block count 1..130 and ONE Squeeze call with 1..40 blocks against the one-lane reference, and every such input absorbed in another split",
+ "C17": "; scalar 1 / n+1 and additions with the identity in the history pass (results overwritten by the caller, arguments and generator compared afterwards); the endomorphism images lambda*P (same y, other x) for both roots of lambda^2+lambda+1 and the scalars lambda-1, lambda+1, lambda+2; scalars whose leading bits are a multiple of the group order (j*n+r for j<=20, r<=15 and (j*n)*2^s+r): the ladder passes through the identity; the caller's point, the scalar and the curve parameters compared after every multiplication",
+ "C06": "; a behavioural probe (one squeezed block of all lanes on a clone) of the current instance after every history, so that state the state key does not see is not merged away; word-size generic permutation/sponge comparison in the GOARCH=386 and GOAMD64=v3 builds; re-entrancy pass also in the purego race build; ONE Absorb call with every block count 1..130 and ONE Squeeze call with 1..40 blocks against the one-lane reference, and every such input absorbed in another split; batches beyond the word size (33..65 lanes in the 386 build): refused or lane-wise correct",
  "C07": "; for every crypto.Hash a message of its digest length (and 16..64 bytes) announced through every kind of opts value must be refused; Options with a context and hash 0 sign like Sign; the first call of the process repeated after everything else",
- "C09": "; a valid sentence starting with every word of both lists: print, parse (same sentence), seed (succeeds, equals the reference); every sentence byte length that valid sentences of 12..24 words reach among 40000 candidates per word count, every passphrase length 0..300",
- "C10": "; every byte value and 13 look-alike runes substituted and inserted at every position of 9 templates; every component length 1..1100 (zero padding); kept MarshalText results",
- "C15": "; every hash function package crypto knows and the binary links (18), counts 0..40; 100/65/300-byte leaves that differ only behind a common prefix; trees of trees (a leaf whose MarshalBinary hashes a sub-list with the same Hasher) and struct copies of a used Hasher",
+ "C09": "; a valid sentence starting with every word of both lists: print, parse (same sentence), seed (succeeds, equals the reference); every sentence byte length that valid sentences of 12..24 words reach among 40000 candidates per word count, every passphrase length 0..300; three different valid sentences of EVERY word count 12..48 one after the other, twice; caller-supplied word lists (bip39.RegisterWordList) as an explicit-state search: all sequences of length <=3 (thorough 4) over 14 operations that select a correct, a nil, an incomplete list or one whose constructor panics, against a one-variable model of the selection",
+ "C10": "; every byte value and 13 look-alike runes substituted and inserted at every position of 9 templates; every component length 1..1100 (zero padding); kept MarshalText results; receiver re-use: all sequences of length <=3 (thorough 4) of UnmarshalText over 9 texts on ONE receiver x 4 initial receivers",
+ "C15": "; every hash function package crypto knows and the binary links (18), counts 0..40; 100/65/300-byte leaves that differ only behind a common prefix; trees of trees (a leaf whose MarshalBinary hashes a sub-list with the same Hasher) and struct copies of a used Hasher; environment answers: a scripted hash constructor in the place of SHA-512/256 that fails (panics like an unavailable hash) on calls chosen by the explorer - all histories of length <=3 over 8 operations on one Hasher x every single failing constructor call (thorough: every pair), a Hasher first used before the hash was available, marshalers that fail or panic; every call that was not interrupted itself must return the tree hash",
  "C19": "; addresses whose checksum is right for another final constant (Bech32m, ...), valid Bech32 strings without data, the 90-tryte checksummed form of a migration address",
  "C20": "; word-size generic permutation/sponge comparison in the GOARCH=386 and GOAMD64=v3 builds; re-entrancy pass also in the purego race build; public hash entered from fresh goroutines at every recursion depth 0..3000 (thorough 9000) x 4 word offsets",
 }
